@@ -32,7 +32,7 @@ def run(ctx):
     def logp_of(dist, x):
         return np.asarray(pm.logp(dist, np.asarray(x, dtype=float)).eval(), dtype=float)
 
-    ncfg = ctx.n(3, 10)
+    ncfg = ctx.n(4, 12)
     # ------------------------------------------------------------------ (a) exported distributions
     for i in ctx.cases(ncfg * 2):
         rng = ctx.rng(i)
@@ -145,6 +145,11 @@ def run(ctx):
                                            sigma_v=[sv * u.km / u.s / u.day ** k for k, sv in enumerate(svs)],
                                            poly_trend=poly, v0_offsets=offs or None, model=model, **extra)
             nd = ctx.n(20000, 100000)
+            if i % 4 == 1:
+                nd = int(65536 * int(rng.choice([1, 1, 2])) + rng.integers(1, 30000))    # straddles 2^16 / 2^17 (internal blocking)
+            elif i % 4 == 3:
+                nd = int(rng.choice([1, 2, 3, 17, 257, 1000]))                              # tiny requests
+            desc["n_draws"] = nd
             smp = prior.sample(size=nd, generate_linear=gl, return_logprobs=True, rng=np.random.default_rng([ctx.seed, ctx.shard, i]))
             Pd = np.asarray(smp["P"].to_value(u.day), dtype=float)
             ev = np.asarray(smp["e"], dtype=float)
